@@ -1,0 +1,3 @@
+//! Verification hooks (feature `verif-hooks`).
+#![allow(missing_docs)]
+pub use crate::node::verif::VerifNode;
